@@ -19,7 +19,7 @@ func init() {
 		Assumptions: []string{"floating-point evaluation, overflow and unequal node sizes are not decided; this is a structural necessary condition of the numeric property"}})
 	register(&propSpec{ID: "C13", Run: checkC13,
 		Explanation: "Units, composition and fold shape: Resource.MilliCPU is only ever stored from millicore-valued terms and Resource.Memory from byte-valued terms (unit analysis over Quantity accessors, switch cases on the resource name, constructor arguments); per pod the accumulator receives Add(container requests) for every container, then SetMaxResource(init container requests) for every init container, then Add(overhead) if present, in that dominance order, with Add ≡ += and SetMaxResource ≡ max per resource; totals over pods / untainted nodes are loop-carried sums updated only by += of a per-element term in full range loops (hence permutation-invariant, every element counted once); percent ≡ 100·req/cap per resource with like divided by like; decisions use max(cpu%, mem%).",
-		RuleText:    "R1 unit of every store to Resource fields + constructor arguments + percent operands, R2 per-pod composition order and operator bodies, R3 commutative folds (4 accumulators), R4 percent formula, R5 capacity list, R6 max of the two",
+		RuleText:    "R1 unit of every store to Resource fields + constructor arguments + percent operands, R2 per-pod composition order and operator bodies, R3 commutative folds (4 accumulators), R4 percent formula, R5 capacity list, R6 max of the two, R7 the informers list every pod that can still run and every node, R8 no client before both caches synced",
 		Assumptions: []string{"resource.Quantity parsing/rounding, float division and int64 overflow are not decided; the largest-pending / largest-available trackers are outside utilisation"}})
 }
 
@@ -738,6 +738,9 @@ func checkC13(ck *Check) {
 	ck.countingArgs("C13.R5")
 	ck.nodeListImmutability("C13.R5")
 	ck.ok("C13.R6", "max", "", "", "decisions use math.Max(cpu%, mem%) (decided as C06.R6)", "see C06.R6")
+	// R7 "its pods", "untainted uncordoned nodes": of the whole cluster
+	ck.clusterView("C13.R7")
+	ck.cacheSynced("C13.R8")
 }
 
 // siteKeyInstr: stable-ish key for a non-call instruction: ordinal among the function's stores.
